@@ -1565,3 +1565,47 @@ package goatlang
 //@   modifies fields(t)
 //@   nopanic
 //@   ensures t.Symbol == v && t.Text == v && t.Tokens == old(t.Tokens)
+
+// ---------------------------------------------------------------------------------------------
+// load.go / tree.go: declaration hoisting (C16) and package ordering (C15)
+// ---------------------------------------------------------------------------------------------
+//@ ghost hoisted(t *token) bool
+//@
+//@ func treeSort
+//@   property C16
+//@   trusted
+//@   modifies allbut(H$VM)
+//@   ensures result == top
+//@   trusted_ensures hoisted(result)
+//@
+//@ func symAtPos
+//@   property C16 C15
+//@   nopanic
+//@   allocates token
+//@   ensures result != nil && isfresh(result) && result.Symbol == symbol && result.Text == symbol && result.Pos == pos && len(result.Tokens) == 0
+//@
+//@ func joinFiles
+//@   property C16
+//@   trusted
+//@   allocates token elems(*token)
+//@
+//@ func loadPackage
+//@   property C16 C15
+//@   modifies *
+//@   callsite#sorted loadImports: hoisted(arg_top)
+//@ func loadFile
+//@   property C16 C15
+//@   modifies *
+//@   callsite#sorted loadImports: hoisted(arg_top)
+//@ func rawLoadPackage
+//@   property C15
+//@   trusted
+//@   modifies *
+//@ func rawLoadFile
+//@   property C15
+//@   trusted
+//@   modifies *
+//@ func loadImports
+//@   property C15 C16 C03
+//@   trusted
+//@   modifies *
